@@ -8,8 +8,8 @@
    a tape of 32-bit words followed by the default word `d` (every eventually
    constant stream), `c` = the context is already cancelled.
    `somes asg` lists the paths of the participating clients. *)
-From ST Require Import Base.Ints Base.Sorting Model.NtpTime Model.Ftm Model.Sample Model.PathAssign Model.PathOracle
-  Proofs.SampleProofs Proofs.PathAssignProofs Proofs.PathOracleProofs Proofs.ReservoirProofs Proofs.ReservoirSetProofs Proofs.C15Main.
+From ST Require Import Base.Ints Base.Sorting Model.NtpTime Model.Ftm Model.Sample Model.PathAssign Model.PathOracle Model.Pather
+  Proofs.SampleProofs Proofs.PathAssignProofs Proofs.PathOracleProofs Proofs.ReservoirProofs Proofs.ReservoirSetProofs Proofs.C15Main Proofs.PatherProofs.
 From Coq Require Import Sorting.Permutation Sorting.Sorted.
 Open Scope Z_scope.
 
@@ -231,6 +231,70 @@ Theorem C15_reservoir_run_picks : forall k js i res, draws_ok (Z.of_nat i) js ->
 Proof. exact run_picks. Qed.
 Print Assumptions C15_reservoir_run_picks.
 
+(* ---- where the offered paths come from: the Pather (net/scion/pather.go, Model/Pather.v) ----
+   A path is (identity, fingerprint); `answers` describes the daemon at a refresh, dstIAs the destinations the
+   Pather was started with (timeservice.go: one entry per configured SCION server and peer).
+   After a refresh that gets the local IA, Paths(q) is the daemon's answer for q once per occurrence of q in
+   dstIAs; a refresh that does not get the local IA changes nothing. *)
+Theorem C15_pather_paths : forall st dstIAs answers q,
+  pather_paths (pather_update st true dstIAs answers) q
+    = flat_map (fun d => if d =? q then daemon_paths answers q else []) dstIAs
+  /\ length (pather_paths (pather_update st true dstIAs answers) q)
+    = (count_occ Z.eq_dec dstIAs q * length (daemon_paths answers q))%nat
+  /\ pather_update st false dstIAs answers = st.
+Proof. intros. split; [apply pather_paths_update|split; [apply pather_paths_count|reflexivity]]. Qed.
+Print Assumptions C15_pather_paths.
+
+(* With pairwise distinct destination IAs, after any sequence of refreshes Paths(q) is exactly what the daemon
+   last reported for q (truth_update: the answer for q of the last refresh that got the local IA, nothing if the
+   lookup failed or q is not a destination). *)
+Theorem C15_pather_offers_daemon_paths : forall dstIAs q l, NoDup dstIAs ->
+  pather_paths (refreshes [] dstIAs l) q = truths [] dstIAs q l.
+Proof. intros dstIAs q l Hn. apply pather_offers_daemon_paths; [exact Hn|reflexivity]. Qed.
+Print Assumptions C15_pather_offers_daemon_paths.
+
+(* Then the participating clients of a round probe over pairwise distinct paths of the daemon (identities), each
+   one a path the daemon reported, and no more clients take part than the daemon reported paths. *)
+Theorem C15_pather_distinct : forall st q truth cs c d tape asg resets rest,
+  pather_paths st q = truth -> NoDup (map fst truth) ->
+  Z.of_nat (length truth) <= max_i64 -> words tape -> word d ->
+  assign (map snd (pather_paths st q)) cs c d tape = AOk asg resets rest ->
+  NoDup (map (fun p => nth p (map fst truth) (-1)) (somes asg))
+  /\ (forall p, In p (somes asg) -> In (nth p truth (-1, -1)) truth)
+  /\ (length (somes asg) <= length truth)%nat.
+Proof.
+  intros st q truth cs c d tape asg resets rest Ho Hn Hm Hw Hd Ha. rewrite Ho in Ha.
+  exact (pather_distinct st q truth Ho Hn cs [] d tape Hm Hw Hd c asg resets rest Ha).
+Qed.
+Print Assumptions C15_pather_distinct.
+
+(* The Pather-level oracle (next hops observed, judged against the paths the daemon last reported) accepts
+   whatever the plain oracle accepts for positions in the offered slice ... *)
+Theorem C15_pather_oracle_of_round_oracle : forall truth L cls off, NoDup (map fst truth) ->
+  C15_round_ok (map snd truth) L cls off = true ->
+  C15_pather_round_ok truth (map (hops_out (map fst truth)) L) cls off = true.
+Proof. exact pather_oracle_of_round_oracle. Qed.
+Print Assumptions C15_pather_oracle_of_round_oracle.
+
+(* ... hence every round of the model behind a Pather, for all states, tapes, peers and filter values. *)
+Theorem C15_pather_oracle_holds_for_model : forall st q truth cs hasfs d tape mss vss,
+  pather_paths st q = truth -> NoDup (map fst truth) ->
+  length hasfs = length cs -> Z.of_nat (length truth) <= max_i64 -> words tape -> word d ->
+  (forall obs off rest, pather_round st q cs d tape mss vss = ROk obs off rest ->
+     C15_pather_round_ok truth (map (hops_out (map fst truth)) (to_cobs_list hasfs cs obs)) 0 off = true)
+  /\ (forall obs rest, pather_round st q cs d tape mss vss = RNoMeas obs rest ->
+     C15_pather_round_ok truth (map (hops_out (map fst truth)) (to_cobs_list hasfs cs obs)) 4 0 = true)
+  /\ (forall post resets rest, pather_round st q cs d tape mss vss = RNoPath post resets rest ->
+     C15_pather_round_ok truth (map (hops_out (map fst truth))
+        (map (fun hs : bool * cstate => idle_cobs (fst hs) (snd hs)) (combine hasfs cs))) 1 0 = true).
+Proof.
+  intros st q truth cs hasfs d tape mss vss Ho Hn Hh Hm Hw Hd. repeat split; intros.
+  - eapply pather_round_ok; eauto.
+  - eapply pather_round_nomeas_ok; eauto.
+  - eapply pather_round_nopath_ok; eauto.
+Qed.
+Print Assumptions C15_pather_oracle_holds_for_model.
+
 (* ---- the hypotheses are satisfiable; the functions compute ---- *)
 Definition ex_client (il : bool) (fp : Z) : cstate := {| cs_en := true; cs_ref := il; cs_il := il; cs_fp := fp |}.
 
@@ -275,3 +339,29 @@ Example C15_example_subsets_edge :
   = [6; 6; 6; 6]%nat
   /\ length (filter (fun js => same_set [2; 0; 1]%nat (run 3 (seq 0 3) 3 js)) (vectors 3 0)) = 1%nat.
 Proof. vm_compute. split; reflexivity. Qed.
+
+
+(* the Pather: destinations [7; 8], the daemon knows two paths to 7 and fails for 8 *)
+Example C15_example_pather :
+  let ans := [{| an_ia := 8; an_ok := false; an_paths := [(0, 9)] |}; {| an_ia := 7; an_ok := true; an_paths := [(0, 5); (1, 6)] |}] in
+  let st := pather_update [] true [7; 8] ans in
+  pather_paths st 7 = [(0, 5); (1, 6)] /\ pather_paths st 8 = [] /\ pather_paths st 9 = []
+  /\ pather_update st false [7; 8] [] = st /\ truth_update [(3, 3)] true [7; 8] ans 7 = [(0, 5); (1, 6)].
+Proof. vm_compute. repeat split; reflexivity. Qed.
+
+(* the hypothesis `NoDup dstIAs` is needed (a defect of /repo, kept as case kind mp.pather.dupia): with the
+   server's IA listed twice - two configured servers in the same AS - the one path the daemon reports is offered
+   twice, two of the three clients probe over it (identity 0 for both), and the oracle rejects the round *)
+Example C15_example_pather_dup :
+  let ans := [{| an_ia := 7; an_ok := true; an_paths := [(0, 5)] |}] in
+  let st := pather_update [] true [7; 7] ans in
+  let cs := [fresh_client false; fresh_client false; fresh_client true] in
+  pather_paths st 7 = [(0, 5); (0, 5)]
+  /\ match pather_round st 7 cs 4294967295 [] [] [[11]; [22]; [33]] with
+     | ROk obs off _ =>
+         map co_path obs = [Some 0%nat; Some 1%nat; None] /\ off = 16
+         /\ C15_pather_round_ok (daemon_paths ans 7)
+              (map (hops_out (map fst (pather_paths st 7))) (to_cobs_list [true; true; true] cs obs)) 0 off = false
+     | _ => False
+     end.
+Proof. vm_compute. repeat split; reflexivity. Qed.
